@@ -32,15 +32,15 @@ ASSUMES = ["vote counts and baselines are integers >= 0 (baseline turnout >= 1 f
 OUTSIDE = ["more units than the bound", "outlier-model exclusions (need > 20 reporting units)",
            "numerical behaviour of the LP solver / scipy bootstrap (stubbed as arbitrary)"]
 BOUNDS = {"quick": "NP: 4 reporting + <=2 nonreporting + <=1 unexpected, alphas {0.5}; GA: 7 reporting + <=2 nonreporting + "
-                   "<=1 unexpected, alphas {0.7}; 1 state, <=2 counties groups; estimand turnout",
-          "thorough": "adds: 2 alphas, 2 estimands (dem, turnout), 3 nonreporting units, all-reporting scenario, 2 states"}
+                   "<=1 unexpected, alphas {0.7}; 1 state, <=2 counties groups; estimand turnout; incl. the all-reporting feed (0 nonreporting units, with and without an unexpected unit)",
+          "thorough": "adds: 2 alphas, 2 estimands (dem, turnout), 3 nonreporting units"}
 OPTS = {"quick": dict(case_timeout_s=900, solver_timeout_ms=30000), "thorough": dict(case_timeout_s=3000, solver_timeout_ms=60000)}
 
 
 def cases(tier):
     out = []
     for pi, nrep, alphas in (("nonparametric", 4, [0.5]), ("gaussian", 7, [0.7])):
-        for nnon in ((1, 2) if tier == "quick" else (0, 1, 2, 3)):
+        for nnon in ((0, 1, 2) if tier == "quick" else (0, 1, 2, 3)):
             for nunexp in (0, 1):
                 for layout in ("one_county", "two_counties"):
                     if nnon == 0 and layout == "two_counties" and nunexp == 0:
